@@ -63,7 +63,9 @@ def markComplete (s : State τ) (n i : Nat) : Except PyErr (State τ) := do
 
 def removeNode (s : State τ) (n : Nat) : Except PyErr (State τ × Option τ) :=
   (s.node2pending.pop n).bind fun p =>
-    let s1 := { s with node2pending := p.2 }
+    -- the collection of a node that goes before the collection is complete does not count towards completeness
+    let s1 := { s with node2pending := p.2,
+                       node2collection := if s.completed then s.node2collection else s.node2collection.erase n }
     match p.1 with
     | [] => .ok (s1, none)
     | i :: rest =>
